@@ -1408,6 +1408,7 @@ func randHeaders(c *Ctx) []types.AccountHeader {
 func init() {
 	register("genesis", func(c *Ctx) {
 		log15.Root().SetHandler(log15.DiscardHandler())
+		gnInstallClock() // s_genesis_pure.go: common.Clock = real time unless a scenario fixes it
 		stdout := os.Stdout
 		if devnull, err := os.OpenFile(os.DevNull, os.O_WRONLY, 0); err == nil {
 			os.Stdout = devnull // chain.Init prints "Initialized NoM ..." with fmt.Printf
@@ -1446,10 +1447,24 @@ func init() {
 		for i := 0; i < 20*nCfg; i++ {
 			contentCase(c, randHeaders(c))
 		}
+		// 0b. pure function of the configuration (s_genesis_pure.go): the configuration with everything left out and the mock
+		//     genesis, scalar members on boundary values, under changed clocks / time zones / GOMAXPROCS / working directories /
+		//     environments / math/rand states, through the file, restarted at later clocks, in child processes
+		var late []gnLate
+		genesisPureDirected(c, tmp, &late)
+		defer func() { genesisPureLate(c, tmp, late) }()
+		nBoundary := 0
 		var prev *genesis.GenesisConfig
 		for k := 0; k < nCfg; k++ {
 			cfg := gnGenConfig(c)
 			id := fmt.Sprintf("cfg%d", k)
+			// every other configuration (drawn) goes through ALL scenarios of the stream with its scalar members on boundary
+			// values (GenesisTimestampSec 0 / 1 / -1 / 2^31 / 2^63-1 / -2^63 …, ChainIdentifier 0 / 2^64-1 …, ExtraData empty / long / escaped)
+			if c.R.Intn(2) == 0 {
+				cfg = gnBoundaryCfg(cfg, nBoundary)
+				nBoundary++
+				c.Hit("base-with-boundary-scalars")
+			}
 			// 1. the generated configuration is accepted by the real validators and by the model
 			v := checkReal(cfg)
 			c.Emit("gen-check %s | %s", encodeCfg(cfg), v)
@@ -1472,6 +1487,8 @@ func init() {
 			if h0b != h0 {
 				c.Fail("genesis hash differs between two constructions of the same configuration in one process: %s vs %s", h0, h0b)
 			}
+			// 2a. the same configuration under every surrounding of the process a Go program can read (s_genesis_pure.go)
+			genesisPure(c, tmp, id, cfg, k, &late)
 			for p := 1; p <= nPerm; p++ {
 				pc := permuteCfg(c, cfg)
 				hp, kp := genesisHash(pc)
